@@ -512,20 +512,25 @@ class Sectionable(BaseObject):
                 "A section with no Document cannot resolve absolute path")
 
         pathlist = path.split("/")
-        if len(pathlist) > 1:
-            if pathlist[0] == "..":
-                found = self.parent
-            elif pathlist[0] == ".":
-                found = self
-            else:
-                found = self._match_iterable(self.sections, pathlist[0])
+        if pathlist[0] == "..":
+            found = self.parent
+        elif pathlist[0] == ".":
+            found = self
+        else:
+            found = self._match_iterable(self.sections, pathlist[0])
 
+        if len(pathlist) > 1:
             if found:
                 return found._get_section_by_path("/".join(pathlist[1:]))
 
             raise ValueError("Section named '%s' does not exist" % pathlist[0])
 
-        return self._match_iterable(self.sections, pathlist[0])
+        # A path may also end with "." or ".." (e.g. the relative path
+        # to the Section itself or to one of its parent Sections).
+        if not hasattr(found, "properties"):
+            raise ValueError("Path '%s' does not lead to a Section" % path)
+
+        return found
 
     def find(self, key=None, type=None, findAll=False, include_subtype=False):
         """
